@@ -144,7 +144,7 @@ func tryRecursiveValidate(val reflect.Value, opts *options, validators []validat
 	if val.IsValid() {
 		// validate the value pointed to, like for values read from the
 		// configuration. A nil pointer is passed as is.
-		curr = chaseValuePointers(val).Interface()
+		curr = chaseValue(val).Interface()
 	}
 	if err := runValidators(curr, validators); err != nil {
 		return err
